@@ -330,6 +330,8 @@ namespace GeographicLib {
       if (northp && iy < minutmNrow_) {
         northp = false;
         y += utmNshift_;
+        // If the sum rounds up to the equator retain S hemisphere
+        if (y == maxutmSrow_ * tile_) y -= eps;
       } else if (!northp && iy >= maxutmSrow_) {
         if (y == maxutmSrow_ * tile_)
           // If on equator retain S hemisphere
